@@ -157,6 +157,8 @@ def _gen_archive(rng, tier):
         else:
             members.insert(members.index(src), twin)
     spec = {"fmt": fmt, "members": members}
+    if fmt.startswith("tar"):
+        spec["tar_format"] = rng.choice(["pax", "pax", "gnu", "gnu", "ustar"])  # the three header dialects tarfile (and GNU tar / bsdtar) write
     if fmt == "zip":
         spec["zip_method"] = rng.choice(["stored", "deflated"])
     if fmt == "7z":
